@@ -973,6 +973,9 @@ func callsInTree(fn *ssa.Function, cm CM) []ssa.CallInstruction {
 func returnsOf(fn *ssa.Function) []*ssa.Return {
 	var out []*ssa.Return
 	for _, b := range fn.Blocks {
+		if b == fn.Recover {
+			continue // the compiler-made return after a recovered panic is not a return statement
+		}
 		for _, in := range b.Instrs {
 			if r, ok := in.(*ssa.Return); ok {
 				out = append(out, r)
